@@ -438,8 +438,11 @@ func BuildF2(tree []*cf, pos string) *Case {
 		mainBody = append(mainBody, load...)
 		mainBody = append(mainBody, &Assign{LHS: accOut(), Op: "=", RHS: LitU(7)})
 		mainBody = append(mainBody, b.list(tree)...)
-		// fold private acc (changed by h) at the end if reached
-		mainBody = append(mainBody, &Assign{LHS: accOut(), Op: "=", RHS: &Bin{Op: "^", L: accOut(), R: accPriv(), Ty: TU32}})
+		// fold private acc (changed by h) at the end if reached (not after a top-level return: the
+		// generator never produces statically unreachable code)
+		if len(tree) == 0 || tree[len(tree)-1].kind != cfReturn {
+			mainBody = append(mainBody, &Assign{LHS: accOut(), Op: "=", RHS: &Bin{Op: "^", L: accOut(), R: accPriv(), Ty: TU32}})
+		}
 	case "callee":
 		b.acc = accPriv
 		f := &Func{Name: "f", Params: []Param{{Name: "c0", Ty: TU32}, {Name: "c1", Ty: TU32}}}
